@@ -610,5 +610,5 @@ def run(tier="quick"):
     rep.not_decided = ["effects of a foreign change to the caller's record across a yield other than via PREEMPTED"]
     for m in models:
         rep.configs.append(m.config)
-        rules(rep, m)
+        common.run_rules(rep, m, rules)
     return rep.finish()
